@@ -288,12 +288,40 @@ def run(repo, chk, tier):
     _fixture(chk)
 
 
+_SUC_CACHE = {}
+
+
+def _set_used_chains_flag(repo, f):
+    """set_used_chains interpreted on a group of three chains: afterwards not_full == (len(used) != 3) and
+    chains_idx == list(used) for selections of every length (robust to any rewriting of the branch)"""
+    if f.key in _SUC_CACHE:
+        return _SUC_CACHE[f.key]
+    import sympy as sp
+
+    from ..sym import SelfObj, Translator, Unmodelled
+
+    ok = True
+    for used in ([], [0], [2], [0, 1], [0, 1, 2], [2, 0, 1]):
+        tr = Translator(repo, hooks={"allow_attr_store": True}, max_depth=3)
+        so = SelfObj(f.cls, {"chains": ["c0", "c1", "c2"], "chains_idx": [0, 1, 2], "not_full": False})
+        try:
+            tr.call_fn(f, [[sp.Integer(i) for i in used]], self_obj=so)
+        except Unmodelled as e:
+            raise AnalysisError("set_used_chains not interpretable: %s" % e)
+        flag = so.attrs.get("not_full")
+        idx = [int(i) for i in so.attrs.get("chains_idx", [])]
+        if bool(flag) != (len(used) != 3) or flag not in (True, False, sp.true, sp.false) or idx != used:
+            ok = False
+    _SUC_CACHE[f.key] = ok
+    return ok
+
+
 def derived_flag(repo, chk):
     """R5: `not_full` guards the cached (graph-compiled) density, which bakes in the chain selection it
     was traced with.  A stale True only disables the cache (safe); a False while the selection is narrowed
     makes amp(data) return the density of another chain set.  So `not_full = False` may be written only
     where chains_idx is known to be the complete list."""
-    chk.rule("R5", "the derived flag not_full is set to False only in DecayGroup.__init__ (full list) and in set_used_chains on the branch where len(chains_idx) == len(chains); anywhere else only True may be stored")
+    chk.rule("R5", "the derived flag not_full is set to False only in DecayGroup.__init__ (full list) and by set_used_chains exactly when the selection has the length of the chain list (set_used_chains interpreted on selections of every length of a three-chain group); anywhere else only True may be stored")
     n = 0
     for rel, m in sorted(repo.mods.items()):
         for f in m.funcs.values():
@@ -314,22 +342,12 @@ def derived_flag(repo, chk):
                                 for x in walk_stmt(f.node)
                             )
                         elif where == "tf_pwa/amp/core.py::DecayGroup.set_used_chains":
-                            # must sit on the "equal length" side of the comparison
-                            for ifn in [x for x in walk_stmt(f.node) if isinstance(x, ast.If)]:
-                                tt = norm_text(ifn.test).replace(" ", "")
-                                ne = tt in ("len(self.chains_idx)!=len(self.chains)", "len(self.chains)!=len(self.chains_idx)")
-                                eq = tt in ("len(self.chains_idx)==len(self.chains)", "len(self.chains)==len(self.chains_idx)")
-                                if ne and st in ifn.orelse and val == "False":
-                                    ok = True
-                                if eq and st in ifn.body and val == "False":
-                                    ok = True
-                            if val.replace(" ", "") in ("len(self.chains_idx)!=len(self.chains)", "len(self.chains)!=len(self.chains_idx)"):
-                                ok = True
+                            ok = _set_used_chains_flag(repo, f)
                         chk.instance("R5", "%s: `%s` %s" % (where, norm_text(st), "ok" if ok else "NOT ALLOWED"))
                         if not ok:
                             chk.violation("R5", where, "not_full:%s" % val, "`%s` clears the not-full flag where the chain selection is not known to be complete: the cached (compiled) density is used with whatever chain set it was traced for" % norm_text(st), file=rel, line=st.lineno)
-    if n < 3:
-        raise AnalysisError("fewer than 3 writes of not_full found")
+    if n < 2:
+        raise AnalysisError("fewer than 2 writes of not_full found")
 
 
 def _fixture(chk):
